@@ -74,7 +74,18 @@ Section Loop.
     | [] => BmcSuccess
     | _ => let en := enc_new sy nm in bmc_loop en individually (init_at v en 0) [] 0 k_max
     end.
+  (** the same from another init block *)
+  Definition bmc_model_from (init : enc -> list cmd) (sy : sys) (nm : expr -> string) (individually : bool) (k_max : nat)
+    : bmc_result :=
+    match s_bads sy with
+    | [] => BmcSuccess
+    | _ => let en := enc_new sy nm in bmc_loop en individually (init en) [] 0 k_max
+    end.
 End Loop.
+
+(** the loop with the encoding of /repo after patches 0001-0003: [init_at3], then [unroll Fixed] *)
+Definition bmc_model3 (solver_sat : list cmd -> list expr -> list expr -> bool) :=
+  bmc_model_from Fixed solver_sat init_at3.
 
 (** ** the solver calls when nothing is ever satisfiable *)
 Inductive event : Type :=
